@@ -20,7 +20,7 @@ from concurrent.futures import ProcessPoolExecutor
 VERIF = os.path.dirname(os.path.dirname(os.path.abspath(__file__)))
 sys.path.insert(0, VERIF)
 os.chdir(VERIF)
-REPO = "/repo"
+REPO = os.environ.get("REPO", "/repo")
 
 
 class Renamer(ast.NodeTransformer):
@@ -400,9 +400,177 @@ class Delegate(ast.NodeTransformer):
         return node
 
 
+_SIGS = None
+_SRC = None        # rel path -> source the signature tables are computed from (None: the files of REPO)
+
+
+def _package_sources():
+    if _SRC is not None:
+        return sorted(_SRC.items())
+    out = []
+    for pth in sorted(glob.glob(os.path.join(REPO, "ad_afqmc", "*.py"))):
+        out.append((os.path.relpath(pth, REPO), open(pth).read()))
+    return out
+
+
+def _signatures():
+    """name -> positional parameter names (without self / cls) for every function of the package whose name has one
+    signature package-wide, takes no *args / **kwargs, is not dispatched on its first argument and has no static
+    argument other than self (jax treats an argument passed by keyword as traced)"""
+    global _SIGS
+    if _SIGS is not None:
+        return _SIGS
+    table = {}
+    banned = set()
+    for path, src_ in _package_sources():
+        if os.path.basename(path) == "config.py":
+            for n in ast.walk(ast.parse(src_)):
+                if isinstance(n, ast.FunctionDef):
+                    banned.add(n.name)           # the MPI stand-in mirrors mpi4py's positional API
+            continue
+        for n in ast.walk(ast.parse(src_)):
+            if not isinstance(n, ast.FunctionDef):
+                continue
+            a = n.args
+            deco = " ".join(ast.unparse(d) for d in n.decorator_list)
+            names = [x.arg for x in a.posonlyargs + a.args]
+            if names and names[0] in ("self", "cls"):
+                names = names[1:]
+            bad = a.vararg or a.kwarg or a.posonlyargs or "dispatch" in deco or ".register" in deco or "defjvp" in deco \
+                or n.name.startswith("__")
+            if "static_argnums" in deco:
+                import re
+                m = re.search(r"static_argnums=\(?([0-9, ]*)\)?", deco)
+                nums = {int(x) for x in m.group(1).replace(" ", "").split(",") if x} if m else {99}
+                if nums - {0}:
+                    bad = True
+            if bad:
+                banned.add(n.name)
+                continue
+            if n.name in table and table[n.name] != names:
+                banned.add(n.name)
+            table[n.name] = names
+    _SIGS = {k: v for k, v in table.items() if k not in banned}
+    return _SIGS
+
+
+class KwCalls(ast.NodeTransformer):
+    """f(a, b) -> f(x=a, y=b) for calls of package functions / methods, identified by name"""
+
+    def visit_Call(self, node):
+        self.generic_visit(node)
+        nm = node.func.id if isinstance(node.func, ast.Name) else (
+            node.func.attr if isinstance(node.func, ast.Attribute) else None)
+        sig = _signatures().get(nm) if nm else None
+        if sig is None or not node.args or any(isinstance(a, ast.Starred) for a in node.args) or \
+                any(k.arg is None for k in node.keywords) or len(node.args) > len(sig):
+            return node
+        new_kw = [ast.keyword(arg=sig[i], value=a) for i, a in enumerate(node.args)]
+        if {k.arg for k in new_kw} & {k.arg for k in node.keywords}:
+            return node
+        if isinstance(node.func, ast.Attribute) and isinstance(node.func.value, ast.Name) and \
+                node.func.value.id in ("np", "jnp", "jax", "lax", "random", "scipy", "math", "comm", "MPI", "h5py"):
+            return node
+        return ast.copy_location(ast.Call(func=node.func, args=[], keywords=new_kw + node.keywords), node)
+
+
+_REORDER = None
+
+
+def _ref_name(n):
+    return n.id if isinstance(n, ast.Name) else (n.attr if isinstance(n, ast.Attribute) else None)
+
+
+def _vmap_chain(v):
+    """vmap(vmap(F, in_axes=A), in_axes=B) -> ([B, A] tuple nodes, F) ; None if v is not such a chain with literal axes"""
+    axes = []
+    while isinstance(v, ast.Call) and _ref_name(v.func) == "vmap" and len(v.args) == 1:
+        ia = [k.value for k in v.keywords if k.arg == "in_axes"]
+        if len(ia) != 1 or not isinstance(ia[0], ast.Tuple) or len(v.keywords) != 1:
+            return None
+        axes.append(ia[0])
+        v = v.args[0]
+    return (axes, v) if axes else None
+
+
+def _reorderable():
+    """private helpers (leading underscore) whose positional parameters can be reversed package-wide: one signature for
+    every definition of the name, no defaults / *args / keyword-only parameters, no static argument other than self,
+    and every reference to the name is a direct positional call or a vmap(.., in_axes=(..))(..) with literal axes"""
+    global _REORDER
+    if _REORDER is not None:
+        return _REORDER
+    defs, bad = {}, set()
+    trees = [ast.parse(src_) for _pth, src_ in _package_sources()]
+    for tree in trees:
+        for n in ast.walk(tree):
+            if isinstance(n, ast.FunctionDef) and n.name.startswith("_") and not n.name.startswith("__"):
+                a = n.args
+                names = [x.arg for x in a.args]
+                if names and names[0] in ("self", "cls"):
+                    names = names[1:]
+                deco = " ".join(ast.unparse(d) for d in n.decorator_list)
+                import re
+                m = re.search(r"static_argnums=\(?([0-9, ]*)\)?", deco)
+                nums = {int(x) for x in m.group(1).replace(" ", "").split(",") if x} if m else set()
+                if a.defaults or a.vararg or a.kwarg or a.kwonlyargs or a.posonlyargs or nums - {0} or len(names) < 2 or \
+                        "dispatch" in deco or "register" in deco or "jvp" in deco or "staticmethod" in deco or "classmethod" in deco:
+                    bad.add(n.name)
+                if n.name in defs and defs[n.name] != names:
+                    bad.add(n.name)
+                defs[n.name] = names
+    ok_refs = set()
+    for tree in trees:
+        for n in ast.walk(tree):
+            if isinstance(n, ast.Call):
+                nm = _ref_name(n.func)
+                if nm in defs:
+                    if n.keywords or any(isinstance(a, ast.Starred) for a in n.args) or len(n.args) != len(defs[nm]):
+                        bad.add(nm)
+                    ok_refs.add(id(n.func))
+                ch = _vmap_chain(n.func)
+                if ch is not None and _ref_name(ch[1]) in defs:
+                    nm = _ref_name(ch[1])
+                    if n.keywords or any(isinstance(a, ast.Starred) for a in n.args) or len(n.args) != len(defs[nm]) or \
+                            any(len(ax.elts) != len(defs[nm]) for ax in ch[0]):
+                        bad.add(nm)
+                    ok_refs.add(id(ch[1]))
+        for n in ast.walk(tree):
+            if isinstance(n, (ast.Name, ast.Attribute)) and _ref_name(n) in defs and id(n) not in ok_refs and \
+                    isinstance(getattr(n, "ctx", None), ast.Load):
+                bad.add(_ref_name(n))
+    _REORDER = {k: v for k, v in defs.items() if k not in bad}
+    return _REORDER
+
+
+class ReorderParams(ast.NodeTransformer):
+    """reverse the positional parameters of every private helper, at its definition(s) and at every call"""
+
+    def visit_FunctionDef(self, node):
+        self.generic_visit(node)
+        if node.name in _reorderable():
+            a = node.args
+            head = a.args[:1] if a.args and a.args[0].arg in ("self", "cls") else []
+            a.args = head + list(reversed(a.args[len(head):]))
+        return node
+
+    def visit_Call(self, node):
+        self.generic_visit(node)
+        tab = _reorderable()
+        if _ref_name(node.func) in tab:
+            node.args = list(reversed(node.args))
+            return node
+        ch = _vmap_chain(node.func)
+        if ch is not None and _ref_name(ch[1]) in tab:
+            node.args = list(reversed(node.args))
+            for ax in ch[0]:
+                ax.elts = list(reversed(ax.elts))
+        return node
+
+
 def transform_module(src: str, kind: str) -> str:
     tree = ast.parse(src)
-    tr = {"commute": CommuteConst, "augassign": AugToAssign, "rettemp": ReturnTemp, "threeaddr": ThreeAddress,
+    tr = {"reorder": ReorderParams, "kwcalls": KwCalls, "commute": CommuteConst, "augassign": AugToAssign, "rettemp": ReturnTemp, "threeaddr": ThreeAddress,
           "swapbranches": SwapBranches, "guardclause": GuardClauses, "comp2loop": CompToLoop, "delegate": Delegate}[kind]()
     tree = tr.visit(tree)
     ast.fix_missing_locations(tree)
@@ -418,7 +586,7 @@ def overlays(kind: str):
             new = ast.unparse(ast.parse(src)) + "\n"
         elif kind == "rename":
             new = rename_module(src)
-        elif kind in ("commute", "augassign", "rettemp", "threeaddr", "swapbranches", "guardclause", "comp2loop", "delegate"):
+        elif kind in ("commute", "augassign", "rettemp", "threeaddr", "swapbranches", "guardclause", "comp2loop", "delegate", "kwcalls", "reorder"):
             new = transform_module(src, kind)
         else:
             new = rename_module(src)
@@ -456,6 +624,25 @@ def run_mutant_under(args):
         mov = apply_mutant(REPO, m)
         if mov is None:
             return pid, m["id"], "inapplicable", []
+        if kind in ("kwcalls", "reorder"):
+            # these two rewrite call sites from a package-wide signature table: it has to be the mutated package's
+            global _SRC, _SIGS, _REORDER
+            base = dict(_package_sources()) if _SRC is None else None
+            _SRC = None
+            srcs = dict(_package_sources())
+            srcs.update({r_: s_ for r_, s_ in mov.items() if r_.startswith("ad_afqmc/") and r_.count("/") == 1})
+            _SRC, _SIGS, _REORDER = srcs, None, None
+            try:
+                ov = {r_: transform_module(s_, kind) for r_, s_ in srcs.items()}
+                for r_, s_ in mov.items():
+                    ov.setdefault(r_, s_)
+            finally:
+                _SRC, _SIGS, _REORDER = None, None, None
+            rep = analyse(pid, REPO, ov, "quick")
+            bad = [o.key() for o in rep.violations]
+            if m.get("expect_silent"):
+                return pid, m["id"], "ok" if not bad else "false-alarm", bad[:3]
+            return pid, m["id"], "ok" if bad else "missed", bad[:3]
         if kind not in _OV:
             _OV[kind] = overlays(kind)
         ov = dict(_OV[kind])
@@ -501,11 +688,11 @@ def mutants_under(kinds, pids):
 def main():
     if "--mutants" in sys.argv:
         sys.argv.remove("--mutants")
-        ALL_ = ("reformat", "rename", "commute", "augassign", "rettemp", "threeaddr", "swapbranches", "guardclause", "comp2loop", "delegate")
+        ALL_ = ("reformat", "rename", "commute", "augassign", "rettemp", "threeaddr", "swapbranches", "guardclause", "comp2loop", "delegate", "kwcalls", "reorder")
         kinds = [a for a in sys.argv[1:] if a in ALL_] or list(ALL_)
         pids = [a.upper() for a in sys.argv[1:] if a.upper().startswith("C") and a[1:].isdigit()] or [f"C{i:02d}" for i in range(1, 21)]
         return mutants_under(kinds, pids)
-    ALL = ("reformat", "rename", "commute", "augassign", "rettemp", "threeaddr", "swapbranches", "guardclause", "comp2loop", "delegate")
+    ALL = ("reformat", "rename", "commute", "augassign", "rettemp", "threeaddr", "swapbranches", "guardclause", "comp2loop", "delegate", "kwcalls", "reorder")
     kinds = [a for a in sys.argv[1:] if a in ALL] or list(ALL)
     pids = [a for a in sys.argv[1:] if a.upper().startswith("C") and a[1:].isdigit()] or [f"C{i:02d}" for i in range(1, 21)]
     rc = 0
